@@ -340,7 +340,9 @@ def prepare_third_party(world, action, src):
     return script, expect, {'action': action, 'refspec': refspec}
 
 
-def third_party_child(world, event, rel_op, action, src):
+def third_party_child(world, event, rel_op, action, src, refuse_once=False):
+    """refuse_once: the push before which the third party acts is itself
+    refused once (the retry, if Bert-E makes one, goes through)"""
     kind, arg, kw = event
 
     def child():
@@ -350,7 +352,11 @@ def third_party_child(world, event, rel_op, action, src):
             return {'skipped': True}
         script, expect, desc = prep
         op0 = world.shim.nops()
-        world.shim.set(before_op=op0 + rel_op, before_script=script)
+        if refuse_once:
+            world.shim.set(before_op=op0 + rel_op, before_script=script,
+                           fail_from=op0 + rel_op, fail_until=op0 + rel_op)
+        else:
+            world.shim.set(before_op=op0 + rel_op, before_script=script)
         rec = world.run(kind, arg, record=False, **kw)
         world.shim.clear()
         acc = Acc()
@@ -385,17 +391,31 @@ def explore_c08(world, event, acc, label, src, max_children=40):
     acc.count('c08_explored_jobs')
     acc.seen('c08_explored_job_kinds', '%s:%s:%s' % (label, event[0],
                                                      ref['status']))
-    n = 0
+    n = nref = 0
+    placements = []
     for o in pushes:
         form = 'all-prune' if '--all' in o['what'] else \
             'delete' if ' :' in o['what'] else 'named'
         for action in THIRD_ACTIONS:
-            if n >= max_children:
+            placements.append((o, form, action, False))
+            # the same placement with that push refused once
+            placements.append((o, form, action, True))
+    for o, form, action, refused in placements:
+        if True:
+            if refused:
+                if nref >= max_children // 2:
+                    continue
+                nref += 1
+            elif n >= max_children:
                 acc.count('c08_placements_skipped')
                 continue
-            n += 1
-            res = third_party_child(world, event, o['rel'], action, src)
+            else:
+                n += 1
+            res = third_party_child(world, event, o['rel'], action, src,
+                                    refuse_once=refused)
             acc.evals += 1
+            if refused:
+                acc.count('c08_placements_with_the_push_refused_once')
             if 'inconclusive' in res:
                 acc.count('c08_children_inconclusive')
                 acc.notes.append('c08 child: %s' % res['inconclusive'][:200])
@@ -404,14 +424,17 @@ def explore_c08(world, event, acc, label, src, max_children=40):
                 acc.count('c08_placements_not_reached')
                 continue
             acc.count('c08_placements_reached')
-            acc.nontrivial('%s|%s|%s|%s' % (label, event[0], form, action))
+            acc.nontrivial('%s|%s|%s|%s' % (
+                label, event[0], form,
+                action + ('+refused-once' if refused else '')))
             acc.seen('c08_outcomes_with_third_party',
                      '%s/%s->%s' % (form, action, res['status']))
             for v in res['violations']:
                 v['witness']['event'] = list(event)
                 v['witness']['placement'] = {'before_push': o['rel'],
                                              'push': o['what'],
-                                             'action': action}
+                                             'action': action,
+                                             'push_refused_once': refused}
                 acc.violation(v['mechanism'], '%s before push %d (%s): %s'
                               % (action, o['rel'], o['what'][:60],
                                  v['desc']), v['witness'])
